@@ -6,8 +6,8 @@ from ..runner import sut, expect, Fail
 
 ID = 'C01'
 RULE = ('cases: random molecule model (C N O S P F Cl Br, charged centres, chains, branches, aliphatic rings, '
-        'benzene/pyridine rings, para/ortho-quinoid rings written upper- or lower-case, bond orders 1-3; size classes up to 14/20 heavy atoms) x random partition into '
-        '1..n connected fragments x one uniquely labelled descriptor pair per cut bond ($x/$x or >x/<x with the '
+        'benzene/pyridine rings, fused aromatic systems (naphthalene, anthracene, phenanthrene), para/ortho-quinoid rings written upper- or lower-case, bond orders 1-3; size classes up to 14/20 heavy atoms) x random partition into '
+        '1..n connected fragments x one labelled descriptor pair per cut bond (labels unique - letters, x1/x2.. or digits - except that cuts leaving ONE atom towards the same fragment may share a label; $x/$x or >x/<x with the '
         'order symbol) x random SMILES rendering per fragment (root, branch order, ring digits 1-9/%nn, bracket '
         'atoms, explicit single bonds, descriptor before/after ring digits, after branches, leading) x shuffled '
         'fragment definitions x own base-graph writer (random root, ring markers); additionally the base graph '
